@@ -232,11 +232,17 @@ class Fn:
     def cond(self, e, env):
         """Coq term of type `res bool` for the truth value of `e`."""
         if isinstance(e, ast.BoolOp):
-            op = "rand" if isinstance(e.op, ast.And) else "ror"
+            # written as a `match` (not a function call) so that call-by-value evaluation
+            # (vm_compute) does not evaluate the second operand when the first decides
             parts = [self.cond(v, env) for v in e.values]
             out = parts[-1]
             for p in reversed(parts[:-1]):
-                out = "%s (%s)\n (%s)" % (op, p, out)
+                if isinstance(e.op, ast.And):
+                    out = ("match (%s) with Ok true => (%s) | Ok false => Ok false | Err e_ => Err e_ "
+                           "| OutOfFuel => OutOfFuel end" % (p, out))
+                else:
+                    out = ("match (%s) with Ok false => (%s) | Ok true => Ok true | Err e_ => Err e_ "
+                           "| OutOfFuel => OutOfFuel end" % (p, out))
             return out
         if isinstance(e, ast.UnaryOp) and isinstance(e.op, ast.Not):
             return "rnot (%s)" % self.cond(e.operand, env)
@@ -368,7 +374,9 @@ class Fn:
                 fail(s, "join point with a long continuation (would be duplicated)")
             then = self.block(list(s.body) + ([] if self.terminates(s.body) else rest), env, end, in_loop)
             other = self.block(list(s.orelse) + ([] if self.terminates(s.orelse) else rest), env, end, in_loop)
-            return "rif (%s)\n(%s)\n(%s)" % (c, then, other)
+            # a `match`, not a function: only the taken branch is evaluated under vm_compute
+            return ("match (%s) with\n| Ok true =>\n%s\n| Ok false =>\n%s\n| Err e_ => Err e_\n| OutOfFuel => OutOfFuel\nend"
+                    % (c, then, other))
         if isinstance(s, ast.Return):
             if in_loop:
                 fail(s, "return inside a loop")
